@@ -13,6 +13,8 @@
 (*       ssuf,sseq}            synthetic suffix / seqnum from now on          *)
 (*  open{h, t, lo, hi}         Reader.NewPointIter / NewRawRangeDelIter /     *)
 (*                             NewRawRangeKeyIter / newMergingIter            *)
+(*  setb{h, lo, hi}            InternalIterator.SetBounds on the open point   *)
+(*                             iterator h (the same real iterator is reused)  *)
 (*  it{h, o, k, f, res}        one positioning call and what it returned      *)
 (*  fit{h, o, k, res}          same for a keyspan.FragmentIterator            *)
 (*  copyspan{a, b, out}        CopySpan(table, [a, b)) and the entries read   *)
@@ -77,6 +79,13 @@ Close == /\ Is("close") /\ Has(Ev.h)
 Remember(out) == exp' = IF KeepExp THEN Append(exp, out) ELSE exp
 OOC == PrintT(<<"OOCLINE", l>>) /\ TLCSet(2, TLCGet(2) + 1)
 
+(* the real iterator object is kept and re-bound; the model's iterator is a new one *)
+SetBounds == /\ Is("setb") /\ Has(Ev.h) /\ hs[Ev.h].t = "pt"
+             /\ (IF SetBOK(Ev.lo, Ev.hi)
+                 THEN Put(Ev.h, [hs[Ev.h] EXCEPT !.it = SetBV(hs[Ev.h].it, Ev.lo, Ev.hi, vp)])
+                 ELSE (OOC /\ Put(Ev.h, [hs[Ev.h] EXCEPT !.it.st = "undef"])))
+             /\ UNCHANGED <<L, FD, FK, vp, exp>>
+
 (* one positioning call on a point iterator.  A call outside the documented     *)
 (* caller contract is the generator's fault, not the code's: it is accepted,    *)
 (* counted (the run is then inconclusive) and leaves the iterator undefined.    *)
@@ -118,7 +127,7 @@ Corrupt == /\ Is("corrupt")
                  /\ \A i \in 1..Len(exp) : Ev.res[i] = Err \/ Ev.res[i] \in exp[i]
            /\ UNCHANGED <<L, FD, FK, vp, hs, exp>>
 
-TraceNext == Reset \/ Table \/ Levels \/ Virt \/ Open \/ Close \/ IterOp \/ FragOp \/ CopySpan \/ Corrupt
+TraceNext == Reset \/ Table \/ Levels \/ Virt \/ Open \/ Close \/ SetBounds \/ IterOp \/ FragOp \/ CopySpan \/ Corrupt
 TraceSpec == TraceInit /\ [][TraceNext]_vars
 
 HWM == IF l - 1 > TLCGet(1) THEN TLCSet(1, l - 1) ELSE TRUE
